@@ -44,6 +44,22 @@ start :: fn do
     print(area(42))
 end
 '''),
+("global_list_filled_at_two_types_through_a_generic_function", False, {"a": (0, 1)}, '''
+xs := []
+h :: fn v do
+    xs -> list.push(v)
+end
+f :: fn do
+    h(?a)
+end
+k :: fn do
+    xs -> list.push("s")
+end
+start :: fn do
+    f()
+    k()
+end
+'''),
 ("initialiser_that_reads_itself", False, {"a": (0, 3)}, '''
 base :: ?a
 limit : int : limit + base
